@@ -49,6 +49,9 @@ type stepResult struct {
 }
 
 type session struct {
+	gateParked  <-chan struct{} // ARM: a yield point of the broker is armed; the goroutine that reaches it parks there
+	gateRelease func()
+	gateInflight, gatePending int64 // what the parked goroutine keeps counted while it is parked
 	beforeStop bool // see quiesce
 	genTags  map[string]string // server-made consumer tag ("<unix time>_<id>") -> canonical name, in order of appearance
 	genReal  map[string]string // canonical name -> real tag
@@ -285,7 +288,16 @@ func (s *session) quiesce() string {
 		if !ok {
 			return "WEDGED(snapshot blocked)"
 		}
-		q := snap.Inflight == 0 && snap.Pending == 0 && (snap.StorePend == 0 || s.beforeStop)
+		inflight, pending := snap.Inflight, snap.Pending
+		if s.gateParked != nil {
+			select {
+			case <-s.gateParked: // a goroutine waits at the armed point: what it holds is not going to change
+				inflight -= s.gateInflight
+				pending -= s.gatePending
+			default:
+			}
+		}
+		q := inflight == 0 && pending == 0 && (snap.StorePend == 0 || s.beforeStop)
 		byID := map[uint64]server.VerifConnSnap{}
 		for _, cs := range snap.Connections {
 			byID[cs.ID+s.connBase] = cs
@@ -501,6 +513,27 @@ func (s *session) exec(op string) string {
 	}
 	if f[0] == "RESTART" {
 		return s.restart()
+	}
+	if f[0] == "ARM" { // ARM <yield point> <regions held> <tokens held>: the next goroutine to reach the point waits there
+		if s.gateRelease != nil {
+			s.gateRelease()
+		}
+		s.gateParked, s.gateRelease = verifhook.Arm(f[1])
+		s.gateInflight, s.gatePending = 0, 0
+		if len(f) > 2 {
+			s.gateInflight = int64(atoi(f[2]))
+		}
+		if len(f) > 3 {
+			s.gatePending = int64(atoi(f[3]))
+		}
+		return ""
+	}
+	if f[0] == "RELEASE" { // let the parked goroutine go on
+		if s.gateRelease != nil {
+			s.gateRelease()
+			s.gateRelease, s.gateParked = nil, nil
+		}
+		return ""
 	}
 	if f[0] == "ADMIN" { // read the admin endpoints (no frame is sent): the result is attached to the step
 		return ""
